@@ -359,17 +359,13 @@ Proof.
     assert (C1 : cos th = cos (phi0 + PI)) by (rewrite neg_cos; nra).
     assert (S1 : sin th = sin (phi0 + PI)) by (rewrite neg_sin; nra).
     destruct (angle_unique _ _ C1 S1) as [k Hk'].
-    assert (EM : pymod th (2 * PI) = pymod (phi0 + PI) (2 * PI)).
-    { rewrite Hk'. replace (phi0 + PI + 2 * IZR k * PI) with (phi0 + PI + IZR k * (2 * PI)) by ring. apply pymod_shift. lra. }
-    destruct (isclose_dec (pymod th (2 * PI)) phi0) as [Hc|Hc]; [|ring].
-    exfalso. unfold isclose in Hc. rewrite EM in Hc.
-    destruct (Rlt_dec (phi0 + PI) (2 * PI)) as [L|L].
-    + rewrite pymod_small in Hc by lra. replace (phi0 + PI - phi0) with PI in Hc by ring.
-      rewrite (Rabs_pos_eq PI) in Hc by lra. rewrite (Rabs_pos_eq phi0) in Hc by lra. lra.
-    + assert (EQ : pymod (phi0 + PI) (2 * PI) = phi0 - PI).
-      { apply (pymod_unique _ _ _ (-1)%Z); [lra | lra | ring]. }
-      rewrite EQ in Hc. replace (phi0 - PI - phi0) with (- PI) in Hc by ring.
-      rewrite Rabs_Ropp, (Rabs_pos_eq PI) in Hc by lra. rewrite (Rabs_pos_eq phi0) in Hc by lra. lra.
+    (* the code compares the two directions on the circle: (th - phi0 + pi) mod 2 pi is close to pi iff they coincide *)
+    assert (EM : pymod (th - phi0 + PI) (2 * PI) = 0).
+    { rewrite Hk'. replace (phi0 + PI + 2 * IZR k * PI - phi0 + PI) with (0 + IZR (k + 1) * (2 * PI)) by (rewrite plus_IZR; ring).
+      rewrite pymod_shift by lra. apply pymod_small; lra. }
+    destruct (isclose_dec (pymod (th - phi0 + PI) (2 * PI)) PI) as [Hc|Hc]; [|ring].
+    exfalso. unfold isclose in Hc. rewrite EM in Hc. replace (0 - PI) with (- PI) in Hc by ring.
+    rewrite Rabs_Ropp, (Rabs_pos_eq PI) in Hc by lra. lra.
   - subst dr. rewrite Rabs_R0. destruct (isclose_dec _ _); ring.
   - (* dr > 0: the direction is phi0 itself *)
     assert (Hoff : dr * cos phi0 <> 0 \/ dr * sin phi0 <> 0).
@@ -379,12 +375,12 @@ Proof.
     set (th := atan2 (dr * sin phi0) (dr * cos phi0)) in *.
     assert (C1 : cos th = cos phi0) by nra. assert (S1 : sin th = sin phi0) by nra.
     destruct (angle_unique _ _ C1 S1) as [k Hk'].
-    assert (EM : pymod th (2 * PI) = phi0).
-    { rewrite Hk'. replace (phi0 + 2 * IZR k * PI) with (phi0 + IZR k * (2 * PI)) by ring. rewrite pymod_shift by lra.
+    assert (EM : pymod (th - phi0 + PI) (2 * PI) = PI).
+    { rewrite Hk'. replace (phi0 + 2 * IZR k * PI - phi0 + PI) with (PI + IZR k * (2 * PI)) by ring. rewrite pymod_shift by lra.
       apply pymod_small; lra. }
-    destruct (isclose_dec (pymod th (2 * PI)) phi0) as [Hc|Hc]; [reflexivity|].
-    exfalso. apply Hc. unfold isclose. rewrite EM. replace (phi0 - phi0) with 0 by ring. rewrite Rabs_R0.
-    pose proof (Rabs_pos phi0). lra.
+    destruct (isclose_dec (pymod (th - phi0 + PI) (2 * PI)) PI) as [Hc|Hc]; [reflexivity|].
+    exfalso. apply Hc. unfold isclose. rewrite EM. replace (PI - PI) with 0 by ring. rewrite Rabs_R0.
+    pose proof (Rabs_pos PI). lra.
 Qed.
 
 End RoundTrip.
